@@ -15,11 +15,14 @@ def scenarios(ctx):
     quick = ctx.quick
     out = []
     Q = [{"r": 1}, {"f": 1}, {"k": 1}, {"p": 1}]
-    T = [{"r": 1, "f": 1}, {"f": 2}, {"k": 1, "f": 1}, {"k": 1, "r": 1}, {"r": 2}, {"p": 1, "f": 1}, {"k": 1, "p": 1}]
-    B = Q if quick else T
+    # thorough: pairs of deviations. A pair costs ~2*10^5 group executions (~20 ms each) per scenario, so the fault pairs go on
+    # the central scenario only and the others get the cheaper pairs
+    T = [{"r": 1, "f": 1}, {"k": 1, "f": 1}, {"k": 1, "r": 1}, {"r": 2}, {"p": 1}]
+    T2 = Q + [{"k": 1, "r": 1}, {"r": 2}]
+    B = Q if quick else T2
     e = gc.errs(membership=True)
     tail = dict(h_conv=5.5, stable=0.5)
-    out.append(("late-joiner", gc.two_members(errs=e, **tail), B))
+    out.append(("late-joiner", gc.two_members(errs=e, **tail), Q if quick else T))
     out.append(("late-joiner-app", gc.two_members(errs=e, baseline="app", **tail), B))
     out.append(("leaver", gc.two_members(errs=e, members=[dict(topics=["t"], assignors=["range"]),
                                                           dict(topics=["t"], assignors=["range"], start=0.4, stop=1.7)], **tail), B))
